@@ -105,6 +105,19 @@ def flow(ctx, proto, thorough, namplify, measure=True, stride=1):
         h2 = [list(b) for b in hist]
         h2[-1] = mutate(rng, h2[-1])
         jobs.append({"msgs": [{"exp": exp, "buf": b} for b in h2], "want_json": True, "measure": measure, "src": "genmut"})
+    # the aftermath: whatever the last datagram of a history left in the cache (the reference may say "nothing" where the code
+    # under test kept a template) is used once - a data set for the template id the datagram names, and one for id 256
+    u16 = lambda n: [(n >> 8) & 255, n & 255]
+    off = 20 if proto == "ipfix" else 24
+    for j in jobs:
+        last = j["msgs"][-1]["buf"]
+        ids = [256]
+        if len(last) >= off + 2 and last[off] * 256 + last[off + 1] >= 256:
+            ids.insert(0, last[off] * 256 + last[off + 1])
+        for tid in dict.fromkeys(ids):
+            body = u16(tid) + u16(4 + 24) + list(range(1, 25))
+            hdr = ([0, 10] + u16(16 + len(body)) + [0] * 12) if proto == "ipfix" else ([0, 9] + u16(1) + [0] * 16)
+            j["msgs"].append({"exp": j["msgs"][-1]["exp"], "buf": hdr + body})
     res = flowjobs.run_jobs(ctx, drv, codec.P[proto]["jobs"], jobs, env={"VERIF_ELEMENTS_DIR": eldir}, tag="fz_" + proto, timeout=3000)
     ctx.traces_validated += sum(1 for r in res if not r.get("skipped"))
     return list(zip(jobs, res))
